@@ -180,6 +180,26 @@ impl SampleBuffer {
     }
 }
 
+/// Number of events recorded so far (since the last buffer reset) for each event dimension.
+///
+/// Not every field of an event dimension is populated on every event (some are optional,
+/// some are never filled), so the count of a dimension is the maximum over its fields.
+pub fn event_counts(
+    event_dim_of_stat: &HashMap<String, String>,
+    stats_buffers: &HashMap<String, SampleBuffer>,
+) -> HashMap<String, u64> {
+    let mut counts: HashMap<String, u64> = HashMap::new();
+    for (field, dim) in event_dim_of_stat {
+        let pushed = stats_buffers
+            .get(field.as_str())
+            .map(|buf| buf.total_pushed())
+            .unwrap_or(0);
+        let count = counts.entry(dim.clone()).or_insert(0);
+        *count = (*count).max(pushed);
+    }
+    counts
+}
+
 /// Convert a Value to Zarr data type, length, and fill value for coordinate arrays
 ///
 /// Returns a tuple of (data_type, length, fill_value) extracted from the Value
